@@ -154,6 +154,27 @@ def run_in_run(spec, out):
     cfg = dict(spec["cfg"])
     holder = {}
     nsearch = {"n": 0, "full": 0}
+    ridge = None
+    if int(P.spec["seed"]) % 4 == 1 and cfg.get("jac", "callable") == "callable":
+        # the objective carries a ridge term whose weight an update function lowers during the run (the value at the current point drops):
+        # every later search is judged against the objective as it is defined when the search is made
+        w = {"v": float(1.0 + int(P.spec["seed"]) % 7)}
+        P0_ = P
+        P = gen.Problem(dict(P0_.spec, ridge=True), P0_.n, (lambda x: P0_.f(x) + 0.5 * w["v"] * float(x @ x)), (lambda x: P0_.g(x) + w["v"] * x),
+                        P0_.lb, P0_.ub, P0_.x0, dict(P0_.meta))
+        calls = {"n": 0}
+
+        def ridge(x, f0, f0_old, grad, X, G):
+            calls["n"] += 1
+            if calls["n"] in (2, 5):
+                from collections import deque as _dq
+
+                w["v"] *= 0.1
+                xo = np.array(X[-1], copy=True) if len(X) else np.array(x, copy=True)
+                return P.f(np.array(x, copy=True)), P.f(xo), P.g(np.array(x, copy=True)), _dq(P.g(np.array(p_, copy=True)) for p_ in X)
+            return f0, f0_old, grad, G
+
+        out.count("runs_whose_update_function_lowers_the_objective_during_the_run")
 
     def pre(ev):
         ev["nf_before"] = holder["tr"].nf if "tr" in holder else None
@@ -224,7 +245,10 @@ def run_in_run(spec, out):
     with probes.Intercept(M, ["line_search"], copy_args=False, on_call=pre) as ic:
         ic.on_event = on_event
         kept = []
-        first = go(dict(cfg, maxiter=spec["restart_after"]) if spec.get("restart_after") else cfg, hooks={"on_cb": (lambda i, xk, st: kept.append(st) and False)})
+        hk = {"on_cb": (lambda i, xk, st: kept.append(st) and False)}
+        if ridge is not None:
+            hk["ufd"] = ridge
+        first = go(dict(cfg, maxiter=spec["restart_after"]) if spec.get("restart_after") else cfg, hooks=hk)
         if spec.get("restart_after") and first.result is not None and first.result.nit == spec["restart_after"]:
             out.count("runs_continued_from_a_checkpoint")
             ck = first.result
@@ -370,6 +394,7 @@ def run(spec):
                 return v
 
             x0_arg = x0.copy()
+            d_arg32 = None
             if j % 5 == 2 and mode == "callable":
                 # a caller of the line-search layer holding its point in single precision (rounded towards the inside of the box);
                 # the direction is recomputed from that point so that the max feasible step is the same for judge and routine
@@ -384,6 +409,12 @@ def run(spec):
                     d = np.clip(x0 - tq * gq, lb, ub) - x0
                     x0_arg = x32
                     out.count("calls_with_single_precision_point")
+                    d32 = d.astype(np.float32)
+                    if j % 10 == 7 and probes.in_box(x0 + d32.astype(float), lb - 1e-6 * np.abs(d), ub + 1e-6 * np.abs(d)):
+                        # ... and its direction as well
+                        d = d32.astype(float)
+                        d_arg32 = d32
+                        out.count("calls_with_single_precision_point_and_direction")
             sf = prepare_scalar_function(fun, x0_arg.copy(), jac=jac if mode == "callable" else "2-point", args=(), epsilon=1e-8,
                                          bounds=(lb, ub), finite_diff_rel_step=None)
             if rng.random() < 0.3:
@@ -421,7 +452,7 @@ def run(spec):
                 out.count("calls_with_logging")
             try:
                 nested["on"] = True
-                ret = line_search(x0_arg.copy(), f0, g0.copy(), d.copy(), lb, ub, above, max_user, is_boxed, sf, ftol, gtol, xtol, cap, ipr, lgr)
+                ret = line_search(x0_arg.copy(), f0, g0.copy(), d.copy() if d_arg32 is None else d_arg32.copy(), lb, ub, above, max_user, is_boxed, sf, ftol, gtol, xtol, cap, ipr, lgr)
                 nested["on"] = False
                 if nested["runs"]:
                     out.count("calls_with_an_optimisation_nested_in_the_objective")
@@ -430,6 +461,19 @@ def run(spec):
                 break
             # stencil points of the finite-difference gradient are also "evaluated points"; only request points are trials
             snapshot = list(log)
+            if d_arg32 is not None:
+                # point and direction in single precision: the trial points are formed in single precision, the other clauses would have
+                # to be judged at that resolution; only the box clause is judged here (the bounds are doubles: a bound that is not
+                # representable in single precision must not be rounded across)
+                for k_, p_, v_ in snapshot:
+                    out.count("evaluations_of_single_precision_searches_checked_against_the_box")
+                    if not probes.in_box(np.asarray(np.real(p_), dtype=float), lb, ub):
+                        out.violate("trial_outside_box", f"{where}: point and direction given in single precision: evaluation at {np.asarray(p_).tolist()} outside the box "
+                                    f"lb={lb.tolist()} ub={ub.tolist()}", what="evaluated_point", family=fam)
+                        break
+                if out.violations:
+                    break
+                continue
             if mode != "callable":
                 # keep every point for feasibility but only the trial points (first f-call of each request) as trials:
                 # stencil points differ from the trial by ~1e-8 and are never within 8 ulp of x0 + a*d, so matching is unaffected
